@@ -14,20 +14,21 @@ MANIFEST = {
             'stop at any point, no action lost at its executor - that is C20): live_inv_reachable (ALL definitions: every '
             'IDLE execution has a start request in flight, every RUNNING execution an action in flight, a RUNNING '
             'workflow whose executions are all completed has a completion check in flight), no_stuck_joinfree (every '
-            'definition without joins), no_stuck_acyclic_partial (joins all/one/N, forks, several activations: every acyclic '
-            'definition with unique names, satisfiable join: N, fired routes among the transitions; every WAITING join has '
-            'a wake-up in flight or a blocker of smaller rank - the forward walk of find_indirectly_affected_task_executions is '
-            'proved complete w.r.t. the backward recursion of _possible_route: affected_complete + waiting_verdict_blocked) for '
-            'the histories that stay in the class PausedClean (no re-opened join unfinished at a pause), '
-            'no_stuck_acyclic_nopause (all histories without pause), and no_stuck_acyclic_full_fails: outside the class the '
-            'statement is FALSE of the code (a join re-opened by Task.defer keeps processed=True; completing while PAUSED it is '
-            'never continued by resume; a later join waits for ever) - witness proved in Lean, replayed event by event on '
-            'the real engine (known finding, corpus/C01). Ties: the `core` stream (generated data-free programs x oracles x '
+            'definition without joins), no_stuck_acyclic (joins all/one/N, forks, several activations: every acyclic '
+            'definition with unique names, satisfiable join: N, fired routes among the transitions; ALL such histories) and '
+            'waiting_join_has_wakeup_or_blocker (every WAITING join has a wake-up in flight or a blocker of smaller rank - the '
+            'forward walk of find_indirectly_affected_task_executions is proved complete w.r.t. the backward recursion of '
+            '_possible_route: affected_complete + waiting_verdict_blocked). The proof attempt found a genuine lost wake-up '
+            '(a join re-opened by Task.defer kept processed=True; completing while PAUSED it was never continued by resume; '
+            'a later join waited for ever): replayed event by event on the real engine, repaired by "fix: re-opening a join '
+            'resets its processed flag" (repo_patches/12), the model follows the fixed code (invariant Fresh: no incomplete '
+            'execution carries the processed flag) and the former counter-witness is a regression (corpus/C01, Lean example). '
+            'Ties: the `core` stream (generated data-free programs x oracles x '
             'schedules (+pause/resume/stop): committed rows and multiset of pending deliveries of the REAL engine equal the '
             'model after EVERY event) and the new `live` stream (small acyclic definitions incl. partial joins with successors '
             'and several activations x random schedules with pause/resume on the REAL engine, model followed event by event; '
-            'monitor: a quiescent real execution is never RUNNING; stuck runs are classified by the class predicate of the '
-            'theorem evaluated by the model on the recorded history). "Only declared error types escape" and the liveness of '
+            'monitor: a quiescent real execution is never RUNNING; the model evaluates the invariants of the theorem on every '
+            'prefix of the real history). "Only declared error types escape" and the liveness of '
             'programs with data flow, guards over variables, failing expressions and engine commands are decided by the '
             '`engine` stream monitors on the real engine, not by a theorem.',
         'note': 'Expressions (YAQL/Jinja), data flow, policies, with-items and sub-workflows are '
@@ -40,7 +41,7 @@ MANIFEST = {
                 'as in no_crash_on_acyclic_partial (cyclic definitions can deadlock genuinely: t1 <-> t2 joins). The theorems '
                 'say a delivery is PENDING, not that an outside scheduler eventually delivers it (fairness is assumed); the '
                 'loss of an action at its executor is excluded (C20). Monitor-only for liveness: cyclic definitions, '
-                'histories outside PausedClean (known finding), everything outside the data-free engine core.',
+                'everything outside the data-free engine core.',
 }
 RULE = ('stream core: data-free single-activation direct workflows (forks, all/partial joins, literal guards, '
         'task-defaults, failing actions) x oracles x random/fifo/lifo schedules (+ operator commands), model vs real '
@@ -66,11 +67,21 @@ def correspond(ctx):
     # liveness clause: theorem counter-witnesses replayed on the real engine + real runs with pause/resume on
     # small acyclic definitions (partial joins with successors, several activations) followed by the model
     par.run_parallel(ctx, 'harness.live_stream', 'run_chunk', [{'n_programs': ctx.n(12, 350)}] * 14)
+    # reverse workflows ("direct or reverse"): the real engine on generated reverse definitions vs Mistral.Reverse
+    # after every event + the outcome / requires monitors (model and theorems: Props/C04Rev)
+    par.run_parallel(ctx, 'harness.reverse_stream', 'run_chunk',
+                     [{'fn_programs': ctx.n(4, 80), 'rows_per_program': 6, 'engine_programs': ctx.n(8, 200)}] * 14)
 
 
 def search(ctx):
-    """a broken theorem / correspondence: look for a concrete failing input with the monitors on a wider population"""
+    """a broken theorem / correspondence: look for a concrete failing input on the real engine: first the recorded
+    histories on which it got stuck before a fix (real engine alone), then the disagreeing cases themselves run to
+    the end under the monitors, then the monitors on a wider population"""
+    from harness import boot
+    boot.boot()
     from harness import engine_stream
+    from harness import live_stream
+    live_stream.search_corpus(ctx)
     from vlib import par
     engine_stream.search_from_core(ctx, ['C01'], 'plain')
     if ctx.violations:
@@ -78,9 +89,15 @@ def search(ctx):
     par.run_parallel(ctx, 'harness.engine_stream', 'run_chunk',
                      [{'n_programs': 40, 'props': ['C01'], 'mode': 'plain'}] * 7 +
                      [{'n_programs': 30, 'props': ['C01'], 'mode': 'pause'}] * 7)
+    if ctx.violations:
+        return
+    par.run_parallel(ctx, 'harness.reverse_stream', 'run_engine_chunk', [{'n_programs': 30, 'p_err': 0.2}] * 14)
 
 
 def replay(ctx, rep):
+    if isinstance(rep.get('replay'), dict) and str(rep['replay'].get('stream', '')).startswith('reverse'):
+        from harness import reverse_stream
+        return reverse_stream.replay(ctx, rep)
     if isinstance(rep.get('replay'), dict) and rep['replay'].get('stream') == 'live':
         from harness import live_stream
         live_stream.replay(ctx, rep)
